@@ -22,11 +22,11 @@ type ReqCase struct {
 	BodyB64    bool                `json:"bodyB64"`
 	HasBody    bool                `json:"hasBody"`
 	Script     Script              `json:"script"`
-	Abs        map[string]any      `json:"abs"`             // the harness's abstract description, echoed in the Req event
-	FailWrites bool                `json:"failWrites"`      // the ResponseWriter's Write fails (client went away)
-	Cancelled  bool                `json:"cancelled"`       // the request context is already cancelled
-	Chunked    bool                `json:"chunked"`         // the body arrives with unknown length (Transfer-Encoding: chunked): ContentLength -1, as a server sees it
-	Reads      *ReadPlan           `json:"reads,omitempty"` // how the body arrives: one behaviour of Stream.tla's source
+	Abs        map[string]any      `json:"abs"`                  // the harness's abstract description, echoed in the Req event
+	FailWrites bool                `json:"failWrites"`           // the ResponseWriter's Write fails (client went away)
+	Cancelled  bool                `json:"cancelled"`            // the request context is already cancelled
+	Chunked    bool                `json:"chunked"`              // the body arrives with unknown length (Transfer-Encoding: chunked): ContentLength -1, as a server sees it
+	Reads      *ReadPlan           `json:"reads,omitempty"`      // how the body arrives: one behaviour of Stream.tla's source
 	CredPrefix string              `json:"credPrefix,omitempty"` // spelling of this case's valid credentials (see caseCtx)
 }
 
